@@ -45,6 +45,9 @@ func (self ValueString) Fields() (map[string]*Value, *VmInterrupt) {
 		}),
 		"repeat": NewValueBuiltinFunction(func(executor Executor, cancelCtx *context.Context, span errors.Span, args ...Value) (*Value, *VmInterrupt) {
 			count := int(args[0].(ValueInt).Inner)
+			if count < 0 {
+				return nil, NewVMThrowInterrupt(span, "repeat count must not be negative")
+			}
 			return NewValueString(strings.Repeat(self.Inner, count)), nil
 		}),
 		"split": NewValueBuiltinFunction(func(executor Executor, cancelCtx *context.Context, span errors.Span, args ...Value) (*Value, *VmInterrupt) {
@@ -98,7 +101,12 @@ func (self ValueString) Fields() (map[string]*Value, *VmInterrupt) {
 		"substring": NewValueBuiltinFunction(func(executor Executor, cancelCtx *context.Context, span errors.Span, args ...Value) (*Value, *VmInterrupt) {
 			upper := args[0].(ValueInt).Inner
 
-			if upper >= int64(len(self.Inner)) {
+			// a negative bound counts from the end
+			if upper < 0 {
+				upper += int64(len(self.Inner))
+			}
+
+			if upper < 0 || upper >= int64(len(self.Inner)) {
 				return nil, NewVMThrowInterrupt(span, "index out of range")
 			}
 
